@@ -115,6 +115,11 @@ let handle (s : sexp) : string = match s with
   | L [A "respdists"; wz; mx; phis; pts] ->
       let pt = function L [a; re; im] -> (q_of a, (q_of re, q_of im)) | _ -> failwith "pt" in
       sl (so sz) (resp_dists (bool_of wz) (bool_of mx) (list_of q_of phis) (list_of pt pts))
+  | L [A "completion"; fin; idmin; icoefs; xdmin; xcoefs; tol] ->
+      let ip = { lp_dmin = z_of idmin; lp_coefs = list_of q_of icoefs; lp_isz = false } in
+      let xp = { lp_dmin = z_of xdmin; lp_coefs = list_of q_of xcoefs; lp_isz = false } in
+      let g = { la_I = ip; la_X = xp } in
+      "(" ^ sb (check_completion (list_of q_of fin) g (q_of tol)) ^ " " ^ so s_lpoly (unit_residual ip xp) ^ ")"
   | L [A "scale"] -> sz scaleZ
   | _ -> failwith "unknown command"
 
